@@ -29,8 +29,9 @@ namespace OP2Utility
 		auto paletteFullLength = palette;
 		paletteFullLength.resize(ImageHeader::CalcMaxIndexedPaletteSize(imageHeader.bitCount), DiscreteColor::Black);
 
-		WriteHeaders(writer, imageHeader.bitCount, imageHeader.width, imageHeader.height, palette);
-		writer.Write(palette);
+		// The written header declares a full length palette (usedColorMapEntries = 0), so the full length palette must be written
+		WriteHeaders(writer, imageHeader.bitCount, imageHeader.width, imageHeader.height, paletteFullLength);
+		writer.Write(paletteFullLength);
 
 		WritePixels(writer, pixels, imageHeader.width, imageHeader.height, imageHeader.bitCount);
 	}
